@@ -89,6 +89,10 @@ class Report:
             for i in r.instances:
                 yield i
 
+    def has_unlisted_violation(self):
+        known, _fixed = load_known(self.prop)
+        return any(i["verdict"] == "bad" and i["key"] not in known for i in self.all_instances())
+
     def check_floors(self):
         for r in self.rules:
             for n, what in r.floors:
